@@ -1,5 +1,784 @@
+(* SorterProofs.v — the sorter stage (BTreeMap<JsonValue, VecDeque<Context>> with the top-N shortcut)
+   flushes to the stable insertion sort of the rows seen (cut to the capacity), in both directions;
+   and `isort` is characterised: permutation, sorted, stable — and these three determine the result. *)
 From Jawk Require Import Base F64 Json Ctx Printer Chain PipelineSpec.
 From Coq Require Import Permutation Sorted.
-About binsert. About bdrop_last. About bdrop_first. About flush. About process. About jcmpS. About buckets. About ins. About isort. About sort_spec. About keyed. About dir_le. About drop_front. About ctx.
-Check removelast_firstn. Check firstn_map. Check removelast_last. Check removelast_app.
-Check Permutation_Forall.
+#[local] Arguments N.sub : simpl never.
+#[local] Arguments N.eqb : simpl never.
+
+(* ====================================================================== *)
+(* generic facts about `ins`                                               *)
+(* ====================================================================== *)
+Section InsLemmas.
+Context {A : Type} (le : A -> A -> bool).
+
+Lemma ins_app_le x l1 l2 :
+  Forall (fun y => le y x = true) l1 -> ins le x (l1 ++ l2) = l1 ++ ins le x l2.
+Proof.
+  induction l1 as [|y l1 IH]; intros H; [reflexivity|].
+  inversion H as [|? ? Hy Hl]; subst. cbn [app ins]. rewrite Hy, IH; auto.
+Qed.
+
+Lemma ins_all_gt x l : Forall (fun y => le y x = false) l -> ins le x l = x :: l.
+Proof.
+  destruct l as [|y l]; intros H; [reflexivity|].
+  inversion H as [|? ? Hy Hl]; subst. cbn [ins]. rewrite Hy. reflexivity.
+Qed.
+
+Lemma ins_all_le x l : Forall (fun y => le y x = true) l -> ins le x l = l ++ [x].
+Proof.
+  intros H. rewrite <- (app_nil_r l) at 1. rewrite ins_app_le by exact H. reflexivity.
+Qed.
+
+Lemma ins_app_stop x l1 l2 :
+  Forall (fun y => le y x = false) l2 -> ins le x (l1 ++ l2) = ins le x l1 ++ l2.
+Proof.
+  intros H. induction l1 as [|y l1 IH].
+  - cbn [app ins]. apply ins_all_gt. exact H.
+  - cbn [app ins]. destruct (le y x); [rewrite IH|]; reflexivity.
+Qed.
+
+Lemma ins_nonempty x l : ins le x l <> [].
+Proof. destruct l as [|y l]; cbn [ins]; [discriminate|]. destruct (le y x); discriminate. Qed.
+
+Lemma ins_length x l : length (ins le x l) = S (length l).
+Proof.
+  induction l as [|y l IH]; cbn [ins]; [reflexivity|].
+  destruct (le y x); cbn [length]; rewrite ?IH; reflexivity.
+Qed.
+
+Lemma ins_split x l : exists l1 l2, l = l1 ++ l2 /\ ins le x l = l1 ++ x :: l2.
+Proof.
+  induction l as [|y l (l1 & l2 & H1 & H2)].
+  - exists [], []. split; reflexivity.
+  - cbn [ins]. destruct (le y x).
+    + exists (y :: l1), l2. rewrite H2, H1 at 1. split; reflexivity.
+    + exists [], (y :: l). split; reflexivity.
+Qed.
+
+(* the heart of the top-N shortcut *)
+Lemma topn_step x (l : list A) n :
+  n <= length l -> removelast (ins le x (firstn n l)) = firstn n (ins le x l).
+Proof.
+  revert n; induction l as [|y l IH]; intros n H.
+  - cbn [length] in H. assert (n = 0)%nat by lia. subst. reflexivity.
+  - destruct n as [|n]; [cbn; destruct (le y x); reflexivity|].
+    cbn [length] in H. cbn [firstn ins]. destruct (le y x) eqn:Eyx.
+    + cbn [firstn]. pose proof (ins_nonempty x (firstn n l)) as Hne.
+      destruct (ins le x (firstn n l)) as [|z zs] eqn:Ez; [congruence|].
+      change (removelast (y :: z :: zs)) with (y :: removelast (z :: zs)).
+      rewrite <- Ez, IH by lia. reflexivity.
+    + change (firstn (S n) (x :: y :: l)) with (x :: firstn n (y :: l)).
+      change (removelast (x :: y :: firstn n l)) with (x :: removelast (firstn (S n) (y :: l))).
+      rewrite removelast_firstn by (cbn [length]; lia). reflexivity.
+Qed.
+
+Lemma isort_snoc l x : isort le (l ++ [x]) = ins le x (isort le l).
+Proof. unfold isort. rewrite fold_left_app. reflexivity. Qed.
+End InsLemmas.
+
+(* ====================================================================== *)
+(* the sorter                                                              *)
+(* ====================================================================== *)
+Section Sorter.
+Variable E : Type.
+Variable get : E -> ctx E -> option json.
+
+Hypothesis cmp_refl : forall a, jcmpS a a = Eq.
+Hypothesis cmp_antisym : forall a b, jcmpS a b = CompOpp (jcmpS b a).
+Hypothesis cmp_trans_le : forall a b c, jcmpS a b <> Gt -> jcmpS b c <> Gt -> jcmpS a c <> Gt.
+Hypothesis cmp_eq_l : forall a b c, jcmpS a b = Eq -> jcmpS a c = jcmpS b c.
+
+Notation cmp := jcmpS.
+Notation row := (ctx E).
+Notation bkts := (buckets E).
+
+(* the state transition of the SSort case of Chain.process *)
+Definition sort_step (k : E) (dir : direction) (st : option N * buckets E) (c : ctx E)
+  : option N * buckets E :=
+  match get k c with
+  | Some kv => let d1 := binsert E kv c (snd st) in
+               match fst st with
+               | None => (None, d1)
+               | Some sp => if (sp =? 0)%N
+                            then (Some 0%N, match dir with Asc => bdrop_last E d1 | Desc => bdrop_first E d1 end)
+                            else (Some (sp - 1)%N, d1)
+               end
+  | None => st
+  end.
+
+Lemma process_sort : forall k dir cap sts ss sp data c,
+  process E get (SSort k dir cap :: sts) (StSort sp data :: ss) c =
+  (StSort (fst (sort_step k dir (sp, data) c)) (snd (sort_step k dir (sp, data) c)) :: ss, [], Continue).
+Proof.
+  intros. unfold sort_step. cbn [process fst snd].
+  destruct (get k c) as [kv|]; [|reflexivity].
+  destruct sp as [sp|]; [|reflexivity].
+  destruct (sp =? 0)%N; reflexivity.
+Qed.
+
+(* ---------- order facts ---------- *)
+Lemma cmp_gt_lt a b : cmp a b = Lt -> cmp b a = Gt.
+Proof. intros H. rewrite cmp_antisym, H. reflexivity. Qed.
+Lemma cmp_lt_gt a b : cmp a b = Gt -> cmp b a = Lt.
+Proof. intros H. rewrite cmp_antisym, H. reflexivity. Qed.
+Lemma cmp_eq_sym a b : cmp a b = Eq -> cmp b a = Eq.
+Proof. intros H. rewrite cmp_antisym, H. reflexivity. Qed.
+Lemma cmp_eq_r a b c : cmp b c = Eq -> cmp a b = cmp a c.
+Proof.
+  intros H. rewrite (cmp_antisym a b), (cmp_antisym a c).
+  f_equal. apply cmp_eq_l. exact H.
+Qed.
+
+(* the comparison outcome `c = cmp x y` makes y <= x in direction dir ... *)
+Definition cle (dir : direction) (c : comparison) : bool :=
+  match dir, c with
+  | Asc, Lt => false
+  | Desc, Gt => false
+  | _, _ => true
+  end.
+
+Lemma dir_le_cle dir a b : dir_le dir a b = cle dir (cmp b a).
+Proof.
+  destruct dir; unfold dir_le, cle; fold jcmpS; [|reflexivity].
+  rewrite (cmp_antisym a b). destruct (cmp b a); reflexivity.
+Qed.
+
+Section Key.
+Variable k : E.
+Definition key (c : row) : json := match get k c with Some kv => kv | None => JNull end.
+Definition rle (dir : direction) (x y : row) : bool := dir_le dir (key x) (key y).
+
+Lemma rle_cle dir y x : rle dir y x = cle dir (cmp (key x) (key y)).
+Proof. apply dir_le_cle. Qed.
+
+(* ---------- well-formed bucket lists ---------- *)
+Definition bucket_ok (kb : json * list row) : Prop :=
+  snd kb <> [] /\ Forall (fun r => cmp (key r) (fst kb) = Eq) (snd kb).
+Definition wf (d : bkts) : Prop :=
+  StronglySorted (fun a b => cmp (fst a) (fst b) = Lt) d /\ Forall bucket_ok d.
+
+Lemma wf_nil : wf [].
+Proof. split; constructor. Qed.
+
+Lemma wf_cons kb d : wf (kb :: d) ->
+  bucket_ok kb /\ Forall (fun kb' => cmp (fst kb) (fst kb') = Lt) d /\ wf d.
+Proof.
+  intros [Hs Hb]. inversion Hs; subst. inversion Hb; subst.
+  split; [assumption|]. split; [assumption|]. split; assumption.
+Qed.
+
+Lemma wf_cons_intro kb d :
+  bucket_ok kb -> Forall (fun kb' => cmp (fst kb) (fst kb') = Lt) d -> wf d -> wf (kb :: d).
+Proof. intros Hb Hlt [Hs Hf]. split; constructor; assumption. Qed.
+
+Lemma flush_asc_cons kb (d : bkts) : flush E Asc (kb :: d) = rev (snd kb) ++ flush E Asc d.
+Proof. reflexivity. Qed.
+
+Lemma flush_desc_app (a b : bkts) : flush E Desc (a ++ b) = flush E Desc b ++ flush E Desc a.
+Proof. unfold flush. rewrite rev_app_distr, map_app, concat_app. reflexivity. Qed.
+
+Lemma flush_desc_cons kb (d : bkts) : flush E Desc (kb :: d) = flush E Desc d ++ rev (snd kb).
+Proof.
+  change (kb :: d) with ([kb] ++ d). rewrite flush_desc_app.
+  unfold flush at 2. cbn [rev app map concat]. rewrite app_nil_r. reflexivity.
+Qed.
+
+Lemma flush_nil dir : flush E dir [] = [].
+Proof. destruct dir; reflexivity. Qed.
+
+(* rows of a well-formed bucket list compare like their bucket keys *)
+Lemma bucket_rows (a : json) (P : comparison -> Prop) kb :
+  bucket_ok kb -> P (cmp a (fst kb)) -> Forall (fun y => P (cmp a (key y))) (rev (snd kb)).
+Proof.
+  intros [_ Hb] HP. apply Forall_rev. eapply Forall_impl; [|exact Hb]. cbn beta.
+  intros y Hy. rewrite (cmp_eq_r _ _ _ Hy). exact HP.
+Qed.
+
+Lemma flush_rows dir (a : json) (P : comparison -> Prop) (d : bkts) :
+  wf d -> Forall (fun kb => P (cmp a (fst kb))) d ->
+  Forall (fun y => P (cmp a (key y))) (flush E dir d).
+Proof.
+  induction d as [|kb d IH]; intros Hwf Hall; [rewrite flush_nil; constructor|].
+  apply wf_cons in Hwf as (Hb & _ & Hwf). inversion Hall as [|? ? Hk Hd]; subst.
+  destruct dir.
+  - rewrite flush_asc_cons. apply Forall_app. split; [apply bucket_rows; assumption|auto].
+  - rewrite flush_desc_cons. apply Forall_app. split; [auto|apply bucket_rows; assumption].
+Qed.
+
+Lemma Forall_lt_trans k0 k' (d : bkts) :
+  cmp k0 k' = Lt -> Forall (fun kb' => cmp k' (fst kb') = Lt) d ->
+  Forall (fun kb' => cmp k0 (fst kb') = Lt) d.
+Proof.
+  intros Hk. apply Forall_impl. intros kb H.
+  destruct (cmp k0 (fst kb)) eqn:E0; auto.
+  - rewrite (cmp_eq_l _ _ _ E0) in Hk. rewrite (cmp_gt_lt _ _ H) in Hk. discriminate.
+  - exfalso. apply (cmp_trans_le (fst kb) k0 k'); try congruence.
+    + rewrite (cmp_lt_gt _ _ E0). discriminate.
+    + apply cmp_gt_lt. exact H.
+Qed.
+
+(* ---------- binsert: well-formedness ---------- *)
+Lemma binsert_wf kv r (d : bkts) : cmp (key r) kv = Eq -> wf d ->
+  wf (binsert E kv r d) /\
+  (forall k0, cmp k0 kv = Lt -> Forall (fun kb' => cmp k0 (fst kb') = Lt) d ->
+              Forall (fun kb' => cmp k0 (fst kb') = Lt) (binsert E kv r d)).
+Proof.
+  intros Hr. induction d as [|[k' b] d IH]; intros Hwf.
+  - cbn [binsert]. split.
+    + apply wf_cons_intro; [|constructor|apply wf_nil].
+      split; cbn [fst snd]; [discriminate|]. constructor; [exact Hr|constructor].
+    + intros k0 Hk0 _. constructor; [exact Hk0|constructor].
+  - pose proof (wf_cons _ _ Hwf) as ([Hne Hb] & Hlt & Hwf'). cbn [fst snd] in Hne, Hb, Hlt.
+    cbn [binsert]. destruct (cmp kv k') eqn:E0.
+    + (* Eq *) split.
+      * apply wf_cons_intro; [|exact Hlt|exact Hwf'].
+        split; cbn [fst snd]; [discriminate|]. constructor; [|exact Hb].
+        rewrite <- (cmp_eq_r _ _ _ E0). exact Hr.
+      * intros k0 Hk0 Hall. inversion Hall; subst. constructor; assumption.
+    + (* Lt *) split.
+      * apply wf_cons_intro; [| |exact Hwf].
+        -- split; cbn [fst snd]; [discriminate|]. constructor; [exact Hr|constructor].
+        -- constructor; [exact E0|]. apply (Forall_lt_trans _ _ _ E0 Hlt).
+      * intros k0 Hk0 Hall. constructor; assumption.
+    + (* Gt *) destruct (IH Hwf') as (IHwf & IHlt). split.
+      * apply wf_cons_intro; [split; assumption| |exact IHwf].
+        apply IHlt; [apply cmp_lt_gt; exact E0|exact Hlt].
+      * intros k0 Hk0 Hall. inversion Hall; subst. constructor; auto.
+Qed.
+
+(* ---------- binsert: what it does to the flushed list ---------- *)
+Lemma binsert_flush dir kv r (d : bkts) : cmp (key r) kv = Eq -> wf d ->
+  flush E dir (binsert E kv r d) = ins (rle dir) r (flush E dir d).
+Proof.
+  intros Hr.
+  assert (Hrk : forall x, cmp (key r) x = cmp kv x) by (intros x; apply cmp_eq_l; exact Hr).
+  induction d as [|[k' b] d IH]; intros Hwf.
+  - cbn [binsert]. rewrite flush_nil. destruct dir; reflexivity.
+  - pose proof (wf_cons _ _ Hwf) as (Hbok & Hlt & Hwf'). cbn [fst] in Hlt.
+    assert (Hrows : forall (P : comparison -> Prop) (v : bool) l,
+              (forall c, P c -> cle dir c = v) ->
+              Forall (fun y => P (cmp (key r) (key y))) l ->
+              Forall (fun y => rle dir y r = v) l).
+    { intros P v l HP. apply Forall_impl. intros y Hy. rewrite rle_cle. apply HP. exact Hy. }
+    cbn [binsert]. destruct (cmp kv k') eqn:E0.
+    + (* Eq: r joins the bucket of k' as its newest row *)
+      assert (Hb : Forall (fun y => rle dir y r = true) (rev b)).
+      { apply (Hrows (fun c => c = Eq)); [intros c ->; destruct dir; reflexivity|].
+        apply (bucket_rows (key r) (fun c => c = Eq) (k', b) Hbok). cbn [fst]. rewrite Hrk. exact E0. }
+      assert (Hd : Forall (fun y => cmp (key r) (key y) = Lt) (flush E dir d)).
+      { apply (flush_rows dir (key r) (fun c => c = Lt) d Hwf').
+        eapply Forall_impl; [|exact Hlt]. cbn beta. intros kb Hkb.
+        rewrite Hrk, (cmp_eq_l _ _ _ E0). exact Hkb. }
+      destruct dir.
+      * rewrite !flush_asc_cons. cbn [snd rev]. rewrite <- app_assoc. cbn [app].
+        rewrite ins_app_le by exact Hb. f_equal. symmetry. apply ins_all_gt.
+        apply (Hrows (fun c => c = Lt)); [intros c ->; reflexivity|exact Hd].
+      * rewrite !flush_desc_cons. cbn [snd rev]. rewrite app_assoc. symmetry. apply ins_all_le.
+        apply Forall_app. split; [|exact Hb].
+        apply (Hrows (fun c => c = Lt)); [intros c ->; reflexivity|exact Hd].
+    + (* Lt: a new smallest bucket *)
+      assert (Hd : Forall (fun y => cmp (key r) (key y) = Lt) (flush E dir ((k', b) :: d))).
+      { apply (flush_rows dir (key r) (fun c => c = Lt) _ Hwf).
+        constructor; [cbn [fst]; rewrite Hrk; exact E0|].
+        eapply Forall_impl; [|apply (Forall_lt_trans _ _ _ E0 Hlt)].
+        cbn beta. intros kb Hkb. rewrite Hrk. exact Hkb. }
+      destruct dir.
+      * rewrite flush_asc_cons. cbn [snd rev app]. symmetry. apply ins_all_gt.
+        apply (Hrows (fun c => c = Lt)); [intros c ->; reflexivity|exact Hd].
+      * rewrite flush_desc_cons. cbn [snd rev app]. symmetry. apply ins_all_le.
+        apply (Hrows (fun c => c = Lt)); [intros c ->; reflexivity|exact Hd].
+    + (* Gt: go on *)
+      assert (Hb : Forall (fun y => cmp (key r) (key y) = Gt) (rev b)).
+      { apply (bucket_rows (key r) (fun c => c = Gt) (k', b) Hbok). cbn [fst]. rewrite Hrk. exact E0. }
+      destruct dir.
+      * rewrite !flush_asc_cons. cbn [snd]. rewrite (IH Hwf'). symmetry. apply ins_app_le.
+        apply (Hrows (fun c => c = Gt)); [intros c ->; reflexivity|exact Hb].
+      * rewrite !flush_desc_cons. cbn [snd]. rewrite (IH Hwf'). symmetry. apply ins_app_stop.
+        apply (Hrows (fun c => c = Gt)); [intros c ->; reflexivity|exact Hb].
+Qed.
+
+(* ---------- the top-N shortcut removes exactly the last flushed row ---------- *)
+Lemma flush_asc_nonempty (d : bkts) : wf d -> d <> [] -> flush E Asc d <> [].
+Proof.
+  destruct d as [|[k0 b] d]; intros Hwf Hne; [congruence|].
+  apply wf_cons in Hwf as ([Hb _] & _ & _). cbn [snd] in Hb. rewrite flush_asc_cons. cbn [snd].
+  destruct b as [|x b]; [congruence|]. cbn [rev]. intros H.
+  apply app_eq_nil in H as [H _]. apply app_eq_nil in H as [_ H]. discriminate.
+Qed.
+
+Lemma bdrop_last_spec (d : bkts) : wf d ->
+  wf (bdrop_last E d) /\ flush E Asc (bdrop_last E d) = removelast (flush E Asc d) /\
+  (forall k0, Forall (fun kb' => cmp k0 (fst kb') = Lt) d ->
+              Forall (fun kb' => cmp k0 (fst kb') = Lt) (bdrop_last E d)).
+Proof.
+  induction d as [|[k0 b] d IH]; intros Hwf.
+  - cbn. repeat split; auto; constructor.
+  - pose proof (wf_cons _ _ Hwf) as ([Hne Hb] & Hlt & Hwf'). cbn [fst snd] in Hne, Hb, Hlt.
+    destruct d as [|kb2 d].
+    + (* single bucket *)
+      cbn [bdrop_last]. unfold drop_front. cbn [fst snd].
+      destruct b as [|x [|y b']]; [congruence| |].
+      * cbn. repeat split; auto; constructor.
+      * split; [|split].
+        -- apply wf_cons_intro; [|constructor|apply wf_nil].
+           split; cbn [fst snd]; [discriminate|]. inversion Hb; assumption.
+        -- rewrite !flush_asc_cons. cbn [snd]. unfold flush. cbn [map concat]. rewrite !app_nil_r.
+           change (rev (x :: y :: b')) with (rev (y :: b') ++ [x]).
+           rewrite removelast_last. reflexivity.
+        -- intros k1 H. inversion H; subst. constructor; auto.
+    + destruct (IH Hwf') as (IHwf & IHflat & IHlt).
+      change (bdrop_last E ((k0, b) :: kb2 :: d)) with ((k0, b) :: bdrop_last E (kb2 :: d)).
+      split; [|split].
+      * apply wf_cons_intro; [split; assumption| |exact IHwf]. apply IHlt. exact Hlt.
+      * rewrite (flush_asc_cons (k0, b) (bdrop_last E (kb2 :: d))), (flush_asc_cons (k0, b) (kb2 :: d)).
+        cbn [snd]. rewrite IHflat.
+        rewrite removelast_app; [reflexivity|]. apply flush_asc_nonempty; [exact Hwf'|discriminate].
+      * intros k1 H. inversion H; subst. constructor; auto.
+Qed.
+
+Lemma bdrop_first_spec (d : bkts) : wf d ->
+  wf (bdrop_first E d) /\ flush E Desc (bdrop_first E d) = removelast (flush E Desc d).
+Proof.
+  destruct d as [|[k0 b] d]; intros Hwf.
+  - split; [exact Hwf|reflexivity].
+  - pose proof (wf_cons _ _ Hwf) as ([Hne Hb] & Hlt & Hwf'). cbn [fst snd] in Hne, Hb, Hlt.
+    unfold bdrop_first, drop_front. cbn [fst snd].
+    destruct b as [|x [|y b']]; [congruence| |].
+    + cbn [app]. split; [exact Hwf'|].
+      rewrite flush_desc_cons. cbn [snd rev app]. rewrite removelast_last. reflexivity.
+    + cbn [app]. split.
+      * apply wf_cons_intro; [|exact Hlt|exact Hwf'].
+        split; cbn [fst snd]; [discriminate|]. inversion Hb; assumption.
+      * rewrite !flush_desc_cons. cbn [snd].
+        change (rev (x :: y :: b')) with (rev (y :: b') ++ [x]).
+        rewrite app_assoc, removelast_last. reflexivity.
+Qed.
+
+Definition bdrop (dir : direction) (d : bkts) : bkts :=
+  match dir with Asc => bdrop_last E d | Desc => bdrop_first E d end.
+
+Lemma bdrop_spec dir (d : bkts) : wf d ->
+  wf (bdrop dir d) /\ flush E dir (bdrop dir d) = removelast (flush E dir d).
+Proof.
+  intros Hwf. destruct dir; cbn [bdrop].
+  - destruct (bdrop_last_spec d Hwf) as (H1 & H2 & _). split; assumption.
+  - apply bdrop_first_spec. exact Hwf.
+Qed.
+
+(* ---------- the specification, as a fold over the rows ---------- *)
+Definition spec_step (dir : direction) (acc : list row) (c : row) : list row :=
+  match get k c with Some _ => ins (rle dir) c acc | None => acc end.
+
+Definition pair_ok (p : json * row) : Prop := fst p = key (snd p).
+
+Lemma map_snd_ins dir p (l : list (json * row)) : pair_ok p -> Forall pair_ok l ->
+  map snd (ins (fun a b => dir_le dir (fst a) (fst b)) p l) = ins (rle dir) (snd p) (map snd l) /\
+  Forall pair_ok (ins (fun a b => dir_le dir (fst a) (fst b)) p l).
+Proof.
+  intros Hp. induction l as [|q l IH]; intros Hl.
+  - split; [reflexivity|]. constructor; [exact Hp|constructor].
+  - inversion Hl as [|? ? Hq Hl']; subst. destruct (IH Hl') as [IH1 IH2].
+    cbn [ins map]. unfold rle at 1. rewrite <- Hp, <- Hq.
+    destruct (dir_le dir (fst q) (fst p)).
+    + cbn [map]. rewrite IH1. split; [reflexivity|]. constructor; assumption.
+    + split; [reflexivity|]. constructor; assumption.
+Qed.
+
+Lemma keyed_fold dir cs : forall acc, Forall pair_ok acc ->
+  map snd (fold_left (fun acc x => ins (fun a b => dir_le dir (fst a) (fst b)) x acc)
+                     (keyed E get k cs) acc)
+  = fold_left (spec_step dir) cs (map snd acc).
+Proof.
+  induction cs as [|c cs IH]; intros acc Hacc; [reflexivity|].
+  change (keyed E get k (c :: cs))
+    with ((match get k c with Some kv => [(kv, c)] | None => [] end) ++ keyed E get k cs).
+  cbn [fold_left]. unfold spec_step at 2. destruct (get k c) as [kv|] eqn:Eg.
+  - cbn [app fold_left].
+    assert (Hp : pair_ok (kv, c)) by (unfold pair_ok, key; cbn [fst snd]; rewrite Eg; reflexivity).
+    destruct (map_snd_ins dir (kv, c) acc Hp Hacc) as [H1 H2].
+    rewrite (IH _ H2), H1. reflexivity.
+  - cbn [app]. apply IH. exact Hacc.
+Qed.
+
+Lemma sort_spec_fold dir cs : sort_spec E get k dir cs = fold_left (spec_step dir) cs [].
+Proof. unfold sort_spec, isort. rewrite keyed_fold by constructor. reflexivity. Qed.
+
+(* ---------- invariants ---------- *)
+Definition InvN (dir : direction) (st : option N * bkts) (S0 : list row) : Prop :=
+  wf (snd st) /\ flush E dir (snd st) = S0 /\ fst st = None.
+
+Definition InvC (dir : direction) (m : nat) (st : option N * bkts) (S0 : list row) : Prop :=
+  wf (snd st) /\ flush E dir (snd st) = firstn m S0 /\
+  exists sp, fst st = Some sp /\ N.to_nat sp = m - length S0.
+
+Lemma key_of_get c kv : get k c = Some kv -> cmp (key c) kv = Eq.
+Proof. intros H. unfold key. rewrite H. apply cmp_refl. Qed.
+
+Lemma stepN dir st S0 c : InvN dir st S0 -> InvN dir (sort_step k dir st c) (spec_step dir S0 c).
+Proof.
+  intros (Hwf & Hflat & Hsp). destruct st as [o d]. cbn [fst snd] in *. subst o.
+  unfold sort_step, spec_step. destruct (get k c) as [kv|] eqn:Eg; cbn [fst snd].
+  - pose proof (key_of_get _ _ Eg) as Hk.
+    split; [apply (binsert_wf kv c d Hk Hwf)|]. split; [|reflexivity].
+    cbn [snd]. rewrite (binsert_flush dir kv c d Hk Hwf), Hflat. reflexivity.
+  - split; [exact Hwf|]. split; [exact Hflat|reflexivity].
+Qed.
+
+Lemma stepC dir m st S0 c :
+  InvC dir m st S0 -> InvC dir m (sort_step k dir st c) (spec_step dir S0 c).
+Proof.
+  intros (Hwf & Hflat & sp & Hsp & Hn). destruct st as [o d]. cbn [fst snd] in *. subst o.
+  unfold sort_step, spec_step. destruct (get k c) as [kv|] eqn:Eg; cbn [fst snd].
+  - pose proof (key_of_get _ _ Eg) as Hk.
+    destruct (binsert_wf kv c d Hk Hwf) as [Hwf1 _].
+    pose proof (binsert_flush dir kv c d Hk Hwf) as Hflat1.
+    destruct (N.eqb_spec sp 0) as [H0|H0].
+    + (* full *)
+      change (match dir with Asc => bdrop_last E (binsert E kv c d)
+                           | Desc => bdrop_first E (binsert E kv c d) end)
+        with (bdrop dir (binsert E kv c d)).
+      destruct (bdrop_spec dir _ Hwf1) as [Hwf2 Hflat2].
+      split; [exact Hwf2|]. split.
+      * cbn [snd]. rewrite Hflat2, Hflat1, Hflat. apply topn_step. lia.
+      * exists 0%N. split; [reflexivity|]. rewrite ins_length. lia.
+    + (* room left *)
+      split; [exact Hwf1|]. split.
+      * cbn [snd]. rewrite Hflat1, Hflat.
+        rewrite !firstn_all2; [reflexivity| rewrite ins_length; lia | lia].
+      * exists (sp - 1)%N. split; [reflexivity|]. rewrite ins_length. lia.
+  - split; [exact Hwf|]. split; [exact Hflat|]. exists sp. split; [reflexivity|exact Hn].
+Qed.
+
+Lemma sorter_nocap_k dir cs :
+  flush E dir (snd (fold_left (sort_step k dir) cs (None, []))) = sort_spec E get k dir cs.
+Proof.
+  rewrite sort_spec_fold.
+  assert (G : forall st S0, InvN dir st S0 ->
+            InvN dir (fold_left (sort_step k dir) cs st) (fold_left (spec_step dir) cs S0)).
+  { induction cs as [|c cs IH]; intros st S0 H; [exact H|].
+    cbn [fold_left]. apply IH. apply stepN. exact H. }
+  destruct (G (None, []) []) as (_ & H & _); [|exact H].
+  split; [apply wf_nil|]. split; [apply flush_nil|reflexivity].
+Qed.
+
+Lemma sorter_cap_k dir n cs :
+  flush E dir (snd (fold_left (sort_step k dir) cs (Some n, []))) =
+  firstn (N.to_nat n) (sort_spec E get k dir cs).
+Proof.
+  rewrite sort_spec_fold.
+  assert (G : forall st S0, InvC dir (N.to_nat n) st S0 ->
+            InvC dir (N.to_nat n) (fold_left (sort_step k dir) cs st) (fold_left (spec_step dir) cs S0)).
+  { induction cs as [|c cs IH]; intros st S0 H; [exact H|].
+    cbn [fold_left]. apply IH. apply stepC. exact H. }
+  destruct (G (Some n, []) []) as (_ & H & _); [|exact H].
+  split; [apply wf_nil|]. split; [cbn [snd]; rewrite flush_nil, firstn_nil; reflexivity|].
+  exists n. split; [reflexivity|]. cbn [length]. lia.
+Qed.
+End Key.
+
+Theorem sorter_spec_nocap : forall k dir cs,
+  flush E dir (snd (fold_left (sort_step k dir) cs (None, []))) = sort_spec E get k dir cs.
+Proof. exact sorter_nocap_k. Qed.
+
+Theorem sorter_spec_cap : forall k dir n cs,
+  flush E dir (snd (fold_left (sort_step k dir) cs (Some n, []))) =
+  firstn (N.to_nat n) (sort_spec E get k dir cs).
+Proof. exact sorter_cap_k. Qed.
+
+
+(* ---------- dir_le is a total preorder (both directions), hence so is the order on keyed rows ---------- *)
+Lemma dir_le_asc_iff a b : dir_le Asc a b = true <-> cmp a b <> Gt.
+Proof. unfold dir_le; fold jcmpS. destruct (cmp a b); split; congruence. Qed.
+
+Lemma dir_le_desc a b : dir_le Desc a b = dir_le Asc b a.
+Proof. reflexivity. Qed.
+
+Lemma dir_le_total dir a b : dir_le dir a b = true \/ dir_le dir b a = true.
+Proof.
+  assert (H : forall x y, dir_le Asc x y = true \/ dir_le Asc y x = true).
+  { intros x y. unfold dir_le; fold jcmpS. rewrite (cmp_antisym y x).
+    destruct (cmp x y); cbn [CompOpp]; auto. }
+  destruct dir; [apply H|]. rewrite !dir_le_desc. apply H.
+Qed.
+
+Lemma dir_le_trans dir a b c : dir_le dir a b = true -> dir_le dir b c = true -> dir_le dir a c = true.
+Proof.
+  destruct dir; rewrite ?dir_le_desc, !dir_le_asc_iff; intros H1 H2.
+  - exact (cmp_trans_le _ _ _ H1 H2).
+  - exact (cmp_trans_le _ _ _ H2 H1).
+Qed.
+
+Lemma keyed_le_total dir (X : Type) (a b : json * X) :
+  (fun a b : json * X => dir_le dir (fst a) (fst b)) a b = true \/
+  (fun a b : json * X => dir_le dir (fst a) (fst b)) b a = true.
+Proof. apply dir_le_total. Qed.
+
+Lemma keyed_le_trans dir (X : Type) (a b c : json * X) :
+  (fun a b : json * X => dir_le dir (fst a) (fst b)) a b = true ->
+  (fun a b : json * X => dir_le dir (fst a) (fst b)) b c = true ->
+  (fun a b : json * X => dir_le dir (fst a) (fst b)) a c = true.
+Proof. apply dir_le_trans. Qed.
+
+End Sorter.
+
+
+(* ====================================================================== *)
+(* what `isort` is: a permutation, sorted, stable — and nothing else is     *)
+(* ====================================================================== *)
+Section ListFacts.
+Context {A : Type}.
+
+Lemma filter_comm (P Q : A -> bool) l : filter P (filter Q l) = filter Q (filter P l).
+Proof.
+  induction l as [|a l IH]; [reflexivity|]. cbn [filter].
+  destruct (Q a) eqn:Eq, (P a) eqn:Ep; cbn [filter]; rewrite ?Eq, ?Ep, IH; reflexivity.
+Qed.
+
+Lemma filter_filter (P Q : A -> bool) l : filter P (filter Q l) = filter (fun w => P w && Q w) l.
+Proof.
+  induction l as [|a l IH]; [reflexivity|]. cbn [filter].
+  destruct (Q a) eqn:Eq; cbn [filter]; rewrite IH; destruct (P a); reflexivity.
+Qed.
+
+Lemma Forall_filter_self (P : A -> bool) l : Forall (fun a => P a = true) (filter P l).
+Proof. apply Forall_forall. intros a Ha. apply filter_In in Ha. apply Ha. Qed.
+
+Lemma Forall_filter (R : A -> Prop) (P : A -> bool) l : Forall R l -> Forall R (filter P l).
+Proof.
+  rewrite !Forall_forall. intros H a Ha. apply filter_In in Ha. apply H, Ha.
+Qed.
+
+Lemma perm_filter (P : A -> bool) l l' : Permutation l l' -> Permutation (filter P l) (filter P l').
+Proof.
+  induction 1 as [|a l l' _ IH|a b l|l l' l'' _ IH1 _ IH2].
+  - constructor.
+  - cbn [filter]. destruct (P a); [constructor|]; exact IH.
+  - cbn [filter]. destruct (P a), (P b); try reflexivity. constructor.
+  - etransitivity; eassumption.
+Qed.
+
+Lemma sorted_filter (R : A -> A -> Prop) (P : A -> bool) l :
+  StronglySorted R l -> StronglySorted R (filter P l).
+Proof.
+  induction 1 as [|a l Hs IH Hf]; [constructor|]. cbn [filter].
+  destruct (P a); [|exact IH]. constructor; [exact IH|]. apply Forall_filter. exact Hf.
+Qed.
+
+Lemma sorted_restrict (R R' : A -> A -> Prop) (P : A -> Prop) l :
+  (forall a b, P a -> P b -> R a b -> R' a b) ->
+  Forall P l -> StronglySorted R l -> StronglySorted R' l.
+Proof.
+  intros HR HP. induction 1 as [|a l Hs IH Hf]; [constructor|].
+  inversion HP as [|? ? Pa Pl]; subst. constructor; [exact (IH Pl)|].
+  rewrite Forall_forall in *. intros b Hb. apply HR; auto.
+Qed.
+End ListFacts.
+
+Section IsortChar.
+Context {A : Type}.
+
+Section One.
+Variable le : A -> A -> bool.
+Local Notation sorted := (StronglySorted (fun a b => le a b = true)).
+Local Notation eqv x := (fun y => le x y && le y x).
+
+Lemma ins_perm x l : Permutation (ins le x l) (x :: l).
+Proof.
+  induction l as [|y l IH]; [reflexivity|]. cbn [ins]. destruct (le y x); [|reflexivity].
+  etransitivity; [apply perm_skip, IH|apply perm_swap].
+Qed.
+
+Theorem isort_perm : forall l, Permutation (isort le l) l.
+Proof.
+  induction l as [|x l IH] using rev_ind; [reflexivity|].
+  rewrite isort_snoc. etransitivity; [apply ins_perm|].
+  etransitivity; [apply perm_skip, IH|apply Permutation_cons_append].
+Qed.
+
+Hypothesis le_total : forall a b, le a b = true \/ le b a = true.
+Hypothesis le_trans : forall a b c, le a b = true -> le b c = true -> le a c = true.
+
+Lemma le_refl a : le a a = true.
+Proof. destruct (le_total a a); assumption. Qed.
+
+Lemma ins_sorted x l : sorted l -> sorted (ins le x l).
+Proof.
+  induction 1 as [|y l Hs IH Hf]; [repeat constructor|].
+  cbn [ins]. destruct (le y x) eqn:Eyx.
+  - constructor; [exact IH|].
+    eapply Permutation_Forall; [apply Permutation_sym, ins_perm|]. constructor; assumption.
+  - assert (Hxy : le x y = true) by (destruct (le_total x y); congruence).
+    constructor; [constructor; assumption|]. constructor; [exact Hxy|].
+    eapply Forall_impl; [|exact Hf]. cbn beta. intros z Hz. exact (le_trans _ _ _ Hxy Hz).
+Qed.
+
+Theorem isort_sorted : forall l, sorted (isort le l).
+Proof.
+  induction l as [|x l IH] using rev_ind; [constructor|].
+  rewrite isort_snoc. apply ins_sorted. exact IH.
+Qed.
+
+Lemma ins_filter x z l : sorted l ->
+  filter (eqv x) (ins le z l) = filter (eqv x) l ++ (if le x z && le z x then [z] else []).
+Proof.
+  induction 1 as [|y l Hs IH Hf]; [cbn [ins filter app]; destruct (le x z && le z x); reflexivity|].
+  cbn [ins]. destruct (le y z) eqn:Eyz.
+  - cbn [filter]. rewrite IH. destruct (le x y && le y x); reflexivity.
+  - cbn [filter]. destruct (le x z && le z x) eqn:Exz; [|rewrite app_nil_r; reflexivity].
+    apply andb_true_iff in Exz as [Hxz Hzx].
+    assert (Hnone : forall w, le y w = true -> le x w && le w x = false).
+    { intros w Hyw. destruct (le x w && le w x) eqn:Exw; [|reflexivity].
+      apply andb_true_iff in Exw as [Hxw Hwx].
+      rewrite (le_trans _ _ _ Hyw (le_trans _ _ _ Hwx Hxz)) in Eyz. discriminate. }
+    rewrite (Hnone y (le_refl y)).
+    assert (Hl : filter (eqv x) l = []).
+    { clear IH Hs. induction l as [|w l IHl]; [reflexivity|].
+      inversion Hf as [|? ? Hw Hl]; subst. cbn [filter]. rewrite (Hnone w Hw). exact (IHl Hl). }
+    rewrite Hl. reflexivity.
+Qed.
+
+Theorem isort_stable : forall l x,
+  filter (fun y => le x y && le y x) (isort le l) = filter (fun y => le x y && le y x) l.
+Proof.
+  induction l as [|z l IH] using rev_ind; intros x; [reflexivity|].
+  rewrite isort_snoc, ins_filter by apply isort_sorted.
+  rewrite filter_app, IH. cbn [filter]. reflexivity.
+Qed.
+
+(* a sorted list is determined by its elements and the order inside each equivalence class *)
+Lemma sorted_stable_unique : forall l1 l2,
+  Permutation l1 l2 -> sorted l1 -> sorted l2 ->
+  (forall x, filter (eqv x) l1 = filter (eqv x) l2) -> l1 = l2.
+Proof.
+  induction l1 as [|a t1 IH]; intros l2 Hp H1 H2 Hf.
+  - apply Permutation_nil in Hp. subst. reflexivity.
+  - destruct l2 as [|b t2]; [apply Permutation_sym, Permutation_nil in Hp; discriminate|].
+    inversion H1 as [|? ? Hs1 Ha]; subst. inversion H2 as [|? ? Hs2 Hb]; subst.
+    assert (Hab : le a b = true).
+    { assert (Hin : In b (a :: t1)) by (eapply Permutation_in; [apply Permutation_sym, Hp|left; reflexivity]).
+      destruct Hin as [<-|Hin]; [apply le_refl|]. rewrite Forall_forall in Ha. apply Ha, Hin. }
+    assert (Hba : le b a = true).
+    { assert (Hin : In a (b :: t2)) by (eapply Permutation_in; [exact Hp|left; reflexivity]).
+      destruct Hin as [<-|Hin]; [apply le_refl|]. rewrite Forall_forall in Hb. apply Hb, Hin. }
+    assert (a = b).
+    { pose proof (Hf a) as Hfa. cbn [filter] in Hfa. rewrite le_refl, Hab, Hba in Hfa.
+      cbn [andb] in Hfa. congruence. }
+    subst b. f_equal. apply IH; [eapply Permutation_cons_inv; exact Hp|assumption|assumption|].
+    intros x. pose proof (Hf x) as Hfx. cbn [filter] in Hfx.
+    destruct (le x a && le a x); congruence.
+Qed.
+
+Theorem isort_unique : forall l l',
+  Permutation l' l -> sorted l' ->
+  (forall x, filter (fun y => le x y && le y x) l' = filter (fun y => le x y && le y x) l) ->
+  l' = isort le l.
+Proof.
+  intros l l' Hp Hs Hf. apply sorted_stable_unique.
+  - etransitivity; [exact Hp|apply Permutation_sym, isort_perm].
+  - exact Hs.
+  - apply isort_sorted.
+  - intros x. rewrite isort_stable. apply Hf.
+Qed.
+
+Lemma le_shift_l x z w : le x z = true -> le z x = true -> le x w = le z w.
+Proof. intros H1 H2. apply eq_true_iff_eq. split; intros H; eapply le_trans; eauto. Qed.
+Lemma le_shift_r x z w : le x z = true -> le z x = true -> le w x = le w z.
+Proof. intros H1 H2. apply eq_true_iff_eq. split; intros H; eapply le_trans; eauto. Qed.
+End One.
+
+(* sorting by the minor key, then stably by the major key, is the lexicographic sort *)
+Section Lex.
+Variables le1 le2 : A -> A -> bool.
+Hypothesis le1_total : forall a b, le1 a b = true \/ le1 b a = true.
+Hypothesis le1_trans : forall a b c, le1 a b = true -> le1 b c = true -> le1 a c = true.
+Hypothesis le2_total : forall a b, le2 a b = true \/ le2 b a = true.
+Hypothesis le2_trans : forall a b c, le2 a b = true -> le2 b c = true -> le2 a c = true.
+
+Definition lex (a b : A) : bool := le1 a b && (negb (le1 b a) || le2 a b).
+
+Lemma lex_total a b : lex a b = true \/ lex b a = true.
+Proof.
+  unfold lex. destruct (le1_total a b) as [H|H], (le2_total a b) as [H'|H']; rewrite ?H, ?H';
+    destruct (le1 a b), (le1 b a), (le2 a b), (le2 b a); cbn; auto; discriminate.
+Qed.
+
+Lemma lex_trans a b c : lex a b = true -> lex b c = true -> lex a c = true.
+Proof.
+  unfold lex. intros Hab Hbc.
+  apply andb_true_iff in Hab as [Hab1 Hab2]. apply andb_true_iff in Hbc as [Hbc1 Hbc2].
+  apply andb_true_iff. split; [exact (le1_trans _ _ _ Hab1 Hbc1)|].
+  destruct (le1 c a) eqn:Hca; [|reflexivity]. cbn [negb orb].
+  rewrite (le1_trans _ _ _ Hca Hab1) in Hbc2. rewrite (le1_trans _ _ _ Hbc1 Hca) in Hab2.
+  cbn [negb orb] in Hab2, Hbc2. exact (le2_trans _ _ _ Hab2 Hbc2).
+Qed.
+
+Lemma lex_class x y l :
+  filter (fun w => le2 y w && le2 w y) (filter (fun w => le1 x w && le1 w x) (isort lex l)) =
+  filter (fun w => le2 y w && le2 w y) (filter (fun w => le1 x w && le1 w x) l).
+Proof.
+  rewrite !filter_filter.
+  set (Q := fun w => (le2 y w && le2 w y) && (le1 x w && le1 w x)).
+  destruct (filter Q l) as [|z rest] eqn:EQ.
+  - apply Permutation_nil. rewrite <- EQ. apply perm_filter, Permutation_sym, isort_perm.
+  - rewrite <- EQ.
+    assert (Hz : Q z = true).
+    { assert (Hin : In z (filter Q l)) by (rewrite EQ; left; reflexivity).
+      apply filter_In in Hin. apply Hin. }
+    unfold Q in Hz. apply andb_true_iff in Hz as [Hz2 Hz1].
+    apply andb_true_iff in Hz2 as [Hyz Hzy]. apply andb_true_iff in Hz1 as [Hxz Hzx].
+    assert (HQ : forall w, Q w = lex z w && lex w z).
+    { intros w. unfold Q, lex.
+      rewrite (le_shift_l le2 le2_trans y z w Hyz Hzy), (le_shift_r le2 le2_trans y z w Hyz Hzy).
+      rewrite (le_shift_l le1 le1_trans x z w Hxz Hzx), (le_shift_r le1 le1_trans x z w Hxz Hzx).
+      destruct (le1 z w), (le1 w z), (le2 z w), (le2 w z); reflexivity. }
+    rewrite (filter_ext _ _ HQ (isort lex l)), (filter_ext _ _ HQ l).
+    apply isort_stable; [exact lex_total|exact lex_trans].
+Qed.
+
+Theorem isort_lex_aux : forall l, isort le1 (isort le2 l) = isort lex l.
+Proof.
+  intros l. apply (sorted_stable_unique le1 le1_total).
+  - etransitivity; [apply isort_perm|]. etransitivity; [apply isort_perm|].
+    apply Permutation_sym, isort_perm.
+  - apply isort_sorted; assumption.
+  - apply (sorted_restrict (fun a b => lex a b = true) _ (fun _ => True)).
+    + intros a b _ _ H. unfold lex in H. apply andb_true_iff in H. apply H.
+    + apply Forall_forall. intros; exact I.
+    + apply isort_sorted; [exact lex_total|exact lex_trans].
+  - intros x. rewrite (isort_stable le1 le1_total le1_trans).
+    apply (sorted_stable_unique le2 le2_total).
+    + apply perm_filter. etransitivity; [apply isort_perm|apply Permutation_sym, isort_perm].
+    + apply sorted_filter. apply isort_sorted; assumption.
+    + apply (sorted_restrict (fun a b => lex a b = true) _ (fun w => le1 x w && le1 w x = true)).
+      * intros a b Ha Hb H. unfold lex in H.
+        apply andb_true_iff in Ha as [Hxa Hax]. apply andb_true_iff in Hb as [Hxb Hbx].
+        apply andb_true_iff in H as [_ H].
+        rewrite (le1_trans _ _ _ Hbx Hxa) in H. exact H.
+      * apply Forall_filter_self.
+      * apply sorted_filter. apply isort_sorted; [exact lex_total|exact lex_trans].
+    + intros y. rewrite lex_class.
+      rewrite (filter_comm _ _ (isort le2 l)), (isort_stable le2 le2_total le2_trans).
+      apply filter_comm.
+Qed.
+End Lex.
+
+Theorem isort_lex : forall (le1 le2 : A -> A -> bool) l,
+  (forall a b, le1 a b = true \/ le1 b a = true) ->
+  (forall a b c, le1 a b = true -> le1 b c = true -> le1 a c = true) ->
+  (forall a b, le2 a b = true \/ le2 b a = true) ->
+  (forall a b c, le2 a b = true -> le2 b c = true -> le2 a c = true) ->
+  isort le1 (isort le2 l) = isort (fun a b => le1 a b && (negb (le1 b a) || le2 a b)) l.
+Proof. intros le1 le2 l T1 R1 T2 R2. exact (isort_lex_aux le1 le2 T1 R1 T2 R2 l). Qed.
+End IsortChar.
+
+Print Assumptions process_sort.
+Print Assumptions sorter_spec_nocap.
+Print Assumptions sorter_spec_cap.
+Print Assumptions isort_perm.
+Print Assumptions isort_sorted.
+Print Assumptions isort_stable.
+Print Assumptions isort_unique.
+Print Assumptions isort_lex.
+Print Assumptions dir_le_total.
+Print Assumptions dir_le_trans.
